@@ -1531,6 +1531,15 @@ impl Engine for ChanInline {
         };
 
         let waker = noop_waker();
+        let (idle_stretch_at, idle_stretch_len): (u64, u32) = {
+            let mut c = sh.choices.lock().unwrap();
+            if c.chance(1, 20) {
+                (1 + c.choose(40) as u64, 60 + c.choose(140))
+            } else {
+                (0, 0)
+            }
+        };
+        let mut forced_idle: u32 = 0;
         let max_steps: u64 = if ctx.thorough { 6000 } else { 3000 };
         let mut steps = 0u64;
         let mut steps_after_close = 0u64;
@@ -1605,6 +1614,28 @@ impl Engine for ChanInline {
                     let weights: Vec<u32> = acts.iter().map(|a| a.1).collect();
                     acts[c.weighted(&weights)].0
                 }
+            };
+            // an idle stretch: the application goes quiet for a while; the receiver polls an empty channel dozens of
+            // times in a row (its idle delay backs off and stays capped) and must still be there afterwards
+            if steps == idle_stretch_at {
+                forced_idle = idle_stretch_len;
+                w(&sh, |w| {
+                    w.out.probe("idle_stretch");
+                    w.log(format!("idle stretch: the receiver alone for {idle_stretch_len} polls"));
+                });
+            }
+            let act = if forced_idle > 0 && rx_alive && !torn_down {
+                if rx_runnable {
+                    forced_idle -= 1;
+                    0
+                } else if have_deadline {
+                    2
+                } else {
+                    forced_idle = 0;
+                    act
+                }
+            } else {
+                act
             };
             last = act;
             if !sender_alive {
